@@ -211,9 +211,15 @@ def main():
 
   infra = [(t, r) for t, r in zip(tasks, results) if "infra_error" in r]
   if infra:
+    # a worker that died or timed out decides nothing; violations found by the
+    # other tasks are still reported (exit 1), otherwise the run exits 3
     for t, r in infra[:5]:
       print("INFRA-ERROR task=%s: %s" % (t.get("name"), r["infra_error"][-3000:]))
-    sys.exit(3)
+    keep = [(t, r) for t, r in zip(tasks, results) if "infra_error" not in r]
+    tasks = [t for t, _ in keep]
+    results = [r for _, r in keep]
+    if not tasks:
+      sys.exit(3)
 
   agg = evidence_mod.aggregate(prop, tier, seed, tasks, results, plan)
 
@@ -285,7 +291,7 @@ def main():
   agg["violations"] = len(confirmed)
   agg["coverage"]["known_finding_cases"] = sum(n for _, n in known_hits.values())
   agg["wall_s"] = round(time.time() - t0, 2)
-  if not args.no_evidence and not args.only and \
+  if not args.no_evidence and not args.only and not infra and \
       not os.environ.get("VERIF_REPO"):
     evidence_mod.write(prop, agg)
   try:
@@ -302,7 +308,7 @@ def main():
          c["exhaustive"], c.get("inconclusive", 0), agg["wall_s"]))
   if confirmed:
     sys.exit(1)
-  sys.exit(3 if nondeterministic else 0)
+  sys.exit(3 if (nondeterministic or infra) else 0)
 
 
 if __name__ == "__main__":
